@@ -395,7 +395,7 @@ func c19Cases(svcs []c19Svc, thorough bool) []c19Case {
 
 func runC19(c *Ctx) {
 	r := c.Run
-	r.Rule("selector lists of length <= 2 (thorough: <= 3) over {every component prefix of a.S.M, a.Sx.M, a.b.S.M, ab.S.M, a.D.M, a.D.Mx and unrelated names, each plain and with '.*'; '*'; case variants; a wildcard below a method} × each of 7 services (packages a, a.b, ab; services S, Sx, D) registered alone on a fresh mux, every selector with its own path; equivalence of service-config and annotation binding for every template of the reduced alphabet (<= 2 segments, thorough <= 3) × kinds × body selectors over the near-miss probe set; healthz for service names × serving statuses over GET (both routes) and WebSocket watch; distinct = (kind, service, selector set / rule / health case)")
+	r.Rule("selector lists of length <= 2 (thorough: <= 3) over {every component prefix of a.S.M, a.Sx.M, a.b.S.M, ab.S.M, a.D.M, a.D.Mx and unrelated names, each plain and with '.*'; '*'; case variants; a wildcard below a method} × each of 7 services (packages a, a.b, ab; services S, Sx, D) registered alone on a fresh mux, every selector with its own path; equivalence of service-config and annotation binding for every template of the reduced alphabet (<= 2 segments, thorough <= 3) × kinds × body selectors over the near-miss probe set; a service-config rule (4 selectors) on a method that also carries an annotation on the same path and verb: the config rule's body mapping and additional bindings and the annotation's additional binding all work; healthz for service names × serving statuses over GET (both routes) and WebSocket watch; distinct = (kind, service, selector set / rule / health case)")
 	r.Assume("selector lists under which one path would be bound to two methods of the registered service are skipped (a conflict by construction)", "invalid selectors ('*' not last) are not explored")
 	svcs := c19Services()
 	cases := c19Cases(svcs, c.Thorough())
@@ -427,9 +427,89 @@ func runC19(c *Ctx) {
 		}
 	})
 	_ = protoreflect.Name("")
+	c19ConfigOnAnnotatedMethod(c)
+}
+
+// c19ConfigOnAnnotatedMethod: a service-config rule selected for a method that also carries a
+// proto annotation on the same path and verb. The config rule is bound like any other: its
+// own body mapping and its additional bindings work (it "behaves exactly as the same rule
+// written as an annotation"); the annotation's other bindings stay as well.
+func c19ConfigOnAnnotatedMethod(c *Ctx) {
+	r := c.Run
+	f := dyn.File{Name: "vq/c19b.proto", Pkg: "vq", Messages: routeMessages("vq"), Services: []dyn.Service{{Name: "S", Methods: []dyn.Method{
+		{Name: "M", In: "Req", Out: "Rsp", Rule: &dyn.Rule{Kind: "post", Path: "/eq/{s}", Add: []dyn.Rule{{Kind: "get", Path: "/eq/ann/{s}"}}}},
+	}}}}
+	fd, reg, err := f.Build()
+	if err != nil {
+		panic(err)
+	}
+	gsd := dyn.ServiceDesc(fd.Services().Get(0))
+	for _, sel := range []string{"vq.S.M", "vq.S.*", "vq.*", "*"} {
+		cfg := dyn.Rule{Sel: sel, Kind: "post", Path: "/eq/{s}", Body: "*", Add: []dyn.Rule{{Kind: "get", Path: "/eq/cfg/{s}"}, {Kind: "put", Path: "/eq/{s}", Body: "n"}}}
+		sc := &serviceconfig.Service{Http: &annotations.Http{Rules: []*annotations.HttpRule{cfg.Proto()}}}
+		m, err := larking.NewMux(larking.FilesOption(reg), larking.ServiceConfigOption(sc))
+		if err != nil {
+			panic(err)
+		}
+		impl := &recImpl{}
+		cs := map[string]any{"kind": "config-on-annotated-method", "annotation": "post /eq/{s} + get /eq/ann/{s}", "config_rule": cfg}
+		key := "config-on-annotated-method selector=" + sel
+		if err := m.VerifRegisterService(gsd, dyn.NewServer(impl)); err != nil {
+			r.Violation(report.Violation{Oracle: "selector-underbinds", Key: "registration-rejected " + key, Case: cs, Note: err.Error()})
+			continue
+		}
+		type probe struct{ verb, path, body, wantField, wantVal, what string }
+		for _, p := range []probe{
+			{"GET", "/eq/cfg/x", "", "s", "x", "the config rule's additional binding"},
+			{"GET", "/eq/ann/x", "", "s", "x", "the annotation's additional binding"},
+			{"POST", "/eq/x", `{"t":"from-body"}`, "t", "from-body", "the config rule's body mapping (body: \"*\") on the shared path"},
+			{"PUT", "/eq/x", `{"s":"in-n"}`, "n.s", "in-n", "the config rule's additional binding with body: \"n\""},
+		} {
+			impl.reset()
+			var sr serveResult
+			if p.body == "" {
+				sr = serveSimple(m, p.verb, p.path, "")
+			} else {
+				res := doHTTP(m, p.verb, p.path, "", http.Header{"Content-Type": {"application/json"}}, reqBody{Data: []byte(p.body), CL: -2})
+				sr = serveResult{Code: res.HTTPCode, Body: res.Body, Panicked: res.Panicked, Panic: res.Panic}
+			}
+			r.Eval(1)
+			got := ""
+			if impl.req != nil {
+				cur := impl.req.ProtoReflect()
+				parts := strings.Split(p.wantField, ".")
+				for i, part := range parts {
+					fdd := cur.Descriptor().Fields().ByName(protoreflect.Name(part))
+					if i == len(parts)-1 {
+						got = cur.Get(fdd).String()
+					} else {
+						cur = cur.Get(fdd).Message()
+					}
+				}
+			}
+			if sr.Panicked || impl.n != 1 || got != p.wantVal {
+				r.Outcome("FAIL:config-rule-not-honoured")
+				r.Violation(report.Violation{Oracle: "selector-underbinds", Key: fmt.Sprintf("config-rule-not-honoured %s %s %s", key, p.verb, p.path), Case: cs,
+					Note: fmt.Sprintf("%s: %s %s -> status=%d dispatched=%d %s=%q (want %q) %s", p.what, p.verb, p.path, sr.Code, impl.n, p.wantField, got, p.wantVal, truncS(string(sr.Body), 100))})
+				continue
+			}
+			r.Outcome("config-on-annotated-method:honoured")
+		}
+		r.Distinct("config-on-annotated-method|" + sel)
+	}
 }
 
 func replayC19(c *Ctx, v report.Violation) {
+	if strings.Contains(v.Key, "config-on-annotated-method") {
+		sub := *c
+		sub.Run = report.NewRun("C19", "quick", 0, "exploration")
+		c19ConfigOnAnnotatedMethod(&sub)
+		fmt.Printf("replay: config-on-annotated-method family re-run -> %d violations\n", sub.Run.NumViolations())
+		if sub.Run.NumViolations() > 0 {
+			c.Run.Violation(report.Violation{Oracle: v.Oracle, Key: v.Key, Case: v.Case, Note: "still violated"})
+		}
+		return
+	}
 	var tc c19Case
 	if !remarshal(v.Case, &tc) {
 		fmt.Println("replay: cannot decode case")
